@@ -150,7 +150,8 @@ C11Eval(b, a, lk, ne, rse, eps) ==
         /\ LET t  == b.C[lk.ca2b[d]]
                n  == Len(t)
                s0 == a.C[d]
-               s  == [i \in DOMAIN s0 |-> IF s0[i] \in newA THEN 0 ELSE lk.a2b[s0[i]]]
+               s  == [i \in DOMAIN s0 |-> IF s0[i] = 0 THEN -1             \* the cycle names a vertex the result does not contain
+                                          ELSE IF s0[i] \in newA THEN 0 ELSE lk.a2b[s0[i]]]
                RECURSIVE Emb(_, _, _)
                Emb(r, i, j) == \* s[i..] embeds in order into t[r + j], t[r + j + 1], ... , t[r + n - 1] (cyclically)
                   IF i > Len(s) THEN TRUE
